@@ -23,7 +23,7 @@
 (* What the code does by accident is modelled as it is (errors are outside *)
 (* the checkpoint, insert_token shifts indices, ...).                      *)
 (***************************************************************************)
-EXTENDS GenProps
+EXTENDS PyBind
 
 CONSTANT MacroSepOn     \* the macro_sep feature
 
